@@ -150,7 +150,9 @@ fn main() {
             let code: i32 = arg(3).parse().unwrap_or(0);
             let eline = arg(4);
             if !eline.is_empty() {
-                let _ = writeln!(std::io::stderr(), "{}", eline);
+                // one write() call: lines of different stages must not interleave inside a line
+                let line = format!("{}\n", eline);
+                unsafe { libc::write(2, line.as_ptr() as *const _, line.len()) };
             }
             let mut inp = Vec::new();
             let _ = std::io::stdin().read_to_end(&mut inp);
